@@ -5547,7 +5547,7 @@ class CodegenCtx:
             if chr(i) in ["\\", '"']:
                 result += "\\" + chr(i)
             elif not (32 <= i < 127):
-                result += "\\x{:02x}".format(i)
+                result += "\\{:03o}".format(i)  # three-digit octal: unlike \x it cannot absorb a following digit
             else:
                 result += chr(i)
         return result
